@@ -615,3 +615,12 @@ pub fn respell_stream(stream: &[u8], rng: &mut Rng) -> Vec<u8> {
     out.extend_from_slice(rest);
     out
 }
+
+/// One value in another spelling (see `respell_stream`).
+pub fn respell_text(v: &Value, rng: &mut Rng) -> String {
+    let mut out = Vec::new();
+    respell_ws(&mut out, rng);
+    respell_value(&mut out, v, rng);
+    respell_ws(&mut out, rng);
+    String::from_utf8(out).unwrap()
+}
